@@ -411,7 +411,7 @@ pub fn run(ctx: &mut Ctx) {
     ctx.run_random_brief(StreamCfg::new("huge_prefix", PREFIX_CLASSES, cases).shrink(40), || prefix_strategy(false), check_prefix, |c| json!({"cfg": c.cfg.brief(), "take": c.take}));
     ctx.require_class("huge_prefix", "window_slots_over_2_32", cases / 4);
     if ctx.tier == Tier::Thorough && !ctx.failed() {
-        crate::fuzzrun::campaign(ctx, "fz_eval", 20_000, 16, 512);
+        crate::fuzzrun::campaign(ctx, "fz_eval", 8_000, 16, 512);
     }
 }
 
